@@ -847,13 +847,6 @@ class Sim(World):
                 dst.rx.append(it)
         # complete frames in what the connection will hold after this read (bytes already buffered + new ones)
         msgs = split_frames(bytes(buffered) + b"".join(x for x in moved if isinstance(x, bytes)))
-        for pos, m0 in enumerate(msgs):
-            if m0 is None:
-                # TcpConnection cannot tell a frame carrying None from "no complete frame": the frame is consumed, dropped,
-                # and the parse loop stops; the frames behind it wait in the read buffer for the next read event
-                msgs = msgs[:pos]
-                self.cov["deliver.none-frame-dropped"] += 1
-                break
         conn = self.conn_objs[i][cid]
         pj = self._peer_index(dst)
         f = 1 if imm_fail and pj is not None else 0
